@@ -733,7 +733,7 @@ func (c *child) view() string {
 			tc = append(tc, fmt.Sprintf("%d:%s", h, c.labelOfHash(bh.Hash.Bytes())))
 		}
 	}
-	sb.WriteString(" H=" + joinOrDash(hs) + " Q=" + joinOrDash(cs) + " VH=" + joinOrDash(vs) + " TC=" + joinOrDash(tc))
+	sb.WriteString(" H=" + joinOrDash(hs) + " Q=" + joinOrDash(cs) + " VH=" + joinOrDash(vs) + " TC=" + tcView(c.maxH, tc))
 	var bs, ver, fut []string
 	for _, l := range c.order {
 		b := c.blocks[l]
@@ -765,6 +765,17 @@ func (c *child) view() string {
 	}
 	sb.WriteString(" T=" + joinOrDash(ts))
 	return sb.String()
+}
+
+// the topBlocks LRU (capacity 100, start-up fills it with one entry per height of the window, nil for skipped
+// heights) starts evicting once a scenario reaches ~100 heights; which entries it keeps depends on the recency
+// of every cached lookup and is not modelled (cache_transparent: it cannot be observed through the queries, and
+// Q= compares those at every height). Its content is compared only below that.
+func tcView(maxH uint64, tc []string) string {
+	if maxH >= 90 {
+		return "~"
+	}
+	return joinOrDash(tc)
 }
 
 func joinOrDash(xs []string) string {
